@@ -178,7 +178,7 @@ class SshSrv(_Srv):
                 return False
         self.chan_ready = threading.Event()
         self.a, self.b = socket.socketpair()
-        self.t = paramiko.Transport(self.b)
+        self.t = paramiko.Transport(self.b, **SSH_OPTS)      # e.g. a small window / packet size: short writes on the client
         self.t.add_server_key(P12.ssh_hostkey())
         self.si = SI()
         self.th = threading.Thread(target=self._serve, daemon=True, name='c01-ssh-acceptor'); self.th.start()
@@ -401,6 +401,8 @@ def run_inbound(case):
     return obs
 
 
+SSH_OPTS = {}
+
 def run_outbound(case, done):
     """C02, outbound direction through the real transport: after the hello exchange the client submits case['msgs'] with
     Session.send; the scripted server reads until done(octets) holds (the caller's receiver has all messages; a terminator
@@ -408,7 +410,13 @@ def run_outbound(case, done):
     Returns dict(open_error, client_hello (bytes), wire (bytes), errors_before_close, worker_alive_after_close)."""
     kind, base = case['transport'], case['base']
     obs = dict(open_error=None, client_hello=b'', wire=b'', errors_before_close=[], worker_alive_after_close=None)
-    c = Conn(kind, base)
+    SSH_OPTS.clear()
+    if case.get('ssh_window'):
+        SSH_OPTS.update(default_window_size=case['ssh_window'][0], default_max_packet_size=case['ssh_window'][1])
+    try:
+        c = Conn(kind, base)
+    finally:
+        SSH_OPTS.clear()
     if c.open_error:
         obs['open_error'] = c.open_error
         return obs
